@@ -24,6 +24,8 @@ static uint32_t sim_new_serial(int srv, int fd, uint16_t qid, int action, int fo
   pi->deviation = deviation;
   pi->t_inject  = sim_now_us;
   pi->txidx     = txidx;
+  vh_trace("  srv%d answers id %u on fd %d: packet serial %u, %s", srv, qid, fd, pi->serial,
+           (action >= 0 && action < (int)(sizeof(sa_names) / sizeof(sa_names[0]))) ? sa_names[action] : "?");
   return pi->serial;
 }
 
@@ -422,6 +424,11 @@ static uint32_t srv_build(int srvidx, int fd, const sdns_query_t *q, const srv_p
     }
     sdns_opt(o, 1232, ottl, cklen ? ck : NULL, cklen);
   }
+  if (action == SA_TC && sim_srv[srvidx].tc_cut && fd >= 0 && !vsock[fd].is_tcp && o->len > 12 + q->qname_wire_len + 4 + 6) {
+    /* TC set and the message really truncated: counts in the header promise more than the datagram holds */
+    o->len -= 3;
+    sim_note("srv_tc_answer_cut_short");
+  }
   if (serial && srv_cookie_built_hook) {
     srv_cookie_built_hook(serial, q, with_opt ? ck : NULL, with_opt ? cklen : 0, action);
   }
@@ -619,6 +626,12 @@ static void srv_receive(int srvidx, int fd, int is_tcp, const uint8_t *msg, size
           g[1] = (uint8_t)q.id;
         }
         serial = sim_new_serial(srvidx, fd, q.id, SA_GARBAGE, 1, 128, txidx);
+        if (!is_tcp && n >= 12 && g[0] == (uint8_t)(q.id >> 8) && g[1] == (uint8_t)q.id && (g[2] & 0x80) && (g[2] & 0x02) &&
+            txidx >= 0) {
+          /* by its header a truncated response to this very query: whatever follows the header, it says "use TCP" */
+          sim_tx[txidx].garbage_says_tc = 1;
+          sim_note("srv_garbage_with_tc_header");
+        }
         srv_send_pkt(srvidx, fd, is_tcp, g, n, serial, d, srvidx);
         return;
       }
